@@ -502,9 +502,9 @@ type mrec struct {
 	ctx     *hctx
 	prefill []int
 	progs   [][]string
-	cur     []int      // per thread: index of the call in progress (len(prog) when the thread is done)
-	sendOK  [][]int    // per thread, per call: -1 not finished, 0 false, 1 true
-	recvV   [][]int    // per thread, per call
+	cur     []int   // per thread: index of the call in progress (len(prog) when the thread is done)
+	sendOK  [][]int // per thread, per call: -1 not finished, 0 false, 1 true
+	recvV   [][]int // per thread, per call
 	recvOK  [][]int
 	closed  bool // a "CL" step closed the channel
 }
